@@ -105,6 +105,9 @@ def generate(rng, tier, index):
             stop_at = rng.randint(1, 12)
         models.append({'template': gen_template(rng, custom), 'custom': custom, 'rate': rng.uniform(0.1, 5) / total,
                        'dts': dts, 'stop_at': stop_at, 't0': t0})
+    if kind == 'coupler' and rng.random() < 0.3:
+        # one of the coupled models was solved on its own before (its clock is not the Coupler's clock)
+        models[rng.choice([len(models) - 1, rng.randrange(len(models))])]['own_clock'] = rng.choice([3.0, 1e3, rng.choice(calls)['T'] * rng.choice([0.5, 7.0])])
     return {'kind': kind, 't0': t0, 'models': models, 'calls': calls}
 
 
